@@ -6,7 +6,7 @@ from .. import ref, cfgspace
 from ..ast import bind, show, walk, is_var
 
 ID = "C14"
-RULE = ("Mode G+M: EVERY configurator with 1..2 rules from a 32-rule menu (incl. defaulted rules whose non-default alternative is a compound package shared with other rules) (cc.Any / cc.Xor with and without default at every position, "
+RULE = ("Mode G+M: EVERY configurator with 1..2 rules from a 33-rule menu (incl. defaulted rules whose non-default alternative is a compound package shared with other rules) (cc.Any / cc.Xor with and without default at every position, "
         "pg.Any, pg.Xor, AtMost(k), All, Imply with item/All/Any conditions and item/All/defaulted consequences; explicit and generated rule "
         "ids) x EVERY priority dictionary of the alphabet (0..3 ids, values in {-3..3}\\{0}: ties, several levels, negatives, a rule id, an "
         "unknown id) -> select(*prios, solver=capture). oracle: over ALL feasible 0/1 points of the polyhedron the captured objective is "
@@ -42,8 +42,37 @@ def shards(tier):
 
 def run_shard(desc, acc, tier):
     lo, hi = desc
+    first = {}
     for k in range(lo, hi):
         check_cfg(k, tier, acc)
+        d = cfg_digest(k, tier)
+        if d is not None:
+            first[k] = d
+    # the same queries again in REVERSE order, without clearing anything in between: a configurator's polyhedron, default priorities and
+    # objective may not depend on which configurators were queried before (neighbours are equal under __eq__ and differ in one rule)
+    for k in range(hi - 1, lo - 1, -1):
+        if k in first:
+            d = cfg_digest(k, tier)
+            acc.n("transitions", 3)
+            if d != first[k]:
+                acc.violation(None, {"tier": tier, "k": k, "lo": lo, "hi": hi, "reverse": True, "cfg": cfgs(tier)[k][0]},
+                              {"what": "polyhedron / default priorities / objective of a configurator depend on which configurators were queried before (history)",
+                               "first_pass": first[k][:300], "reverse_pass": d[:300]})
+
+
+def cfg_digest(k, tier):
+    name, ast = cfgs(tier)[k]
+    try:
+        cfg, _ = bind(ast)
+        if cfg.errors():
+            return None
+        P = cfg.ge_polyhedron
+        cap = cfgspace.Capture("none")
+        list(cfg.select({}, {"a": 1, "x": -1}, solver=cap))
+        return repr((np.asarray(P).tolist(), [repr(v.id) for v in P.variables], np.asarray(P.default_prio_vector).tolist(),
+                     sorted((repr(a), b) for a, b in cfg.default_prios.items()), [np.asarray(o).tolist() for o in cap.calls[0][1]]))
+    except BaseException as e:
+        return "EXC " + repr(e)
 
 
 def expected_tags(cfg_ast):
@@ -182,4 +211,7 @@ def check_cfg(k, tier, acc, only=None):
 
 
 def replay(case, acc):
+    if case.get("reverse"):
+        run_shard((case["lo"], case["hi"]), acc, case["tier"])
+        return
     check_cfg(case["k"], case["tier"], acc, only=case.get("pi"))
